@@ -358,6 +358,37 @@ let run_writer t : string * string =
   let cbs = List.filter_map (function ECallback (n, sz, i) -> Some (Printf.sprintf "%s=%s=%s" (str_of_bytes n) (tok_of_z sz) (str_of_bytes i)) | _ -> None) st.w_effects in
   (String.concat ";" (ops_obs @ ["files:" ^ String.concat "," (List.map (fun (n, s) -> n ^ "=" ^ s) files); "cb:" ^ String.concat "," cbs]), "-")
 
+
+(* ---------- C20: revisit / merge ---------- *)
+let profile_of (p : n list) : profile_kind =
+  match str_of_bytes p with
+  | "http://netpreserve.org/warc/1.1/revisit/identical-payload-digest"
+  | "http://netpreserve.org/warc/1.0/revisit/identical-payload-digest" -> PIdentical
+  | "http://netpreserve.org/warc/1.1/revisit/server-not-modified"
+  | "http://netpreserve.org/warc/1.0/revisit/server-not-modified" -> PNotModified
+  | _ -> PUnknownProfile
+let run_rev t : string * string =
+  let (o, vid, _) = read_opts t in
+  let rt = next_int t in let head = next_hex t in let payload = next_hex t in
+  let profile = next_hex t in let date = next_hex t in let _via = next_int t in
+  let typ = if rt = 2 then "response" else "request" in
+  let hs0 = m_set field_table uni_lower (bytes_of_str "WARC-Type") (bytes_of_str typ) [] in
+  let hs = add_all hs0 [("WARC-Date", date); ("Content-Type", bytes_of_str "application/http"); ("WARC-Target-URI", bytes_of_str "http://example.com/x")] in
+  match fst (m_build o (n_of_int vid) (n_of_int rt) hs (head @ payload) (bytes_of_str "urn:uuid:11111111-2222-3333-4444-555555555555")) with
+  | Err _ -> ("BUILDERR", "-")
+  | Ok (orig, _) ->
+    match create_ref field_table uni_lower orig profile with
+    | None -> ("REFERR", "-")
+    | Some rf ->
+      match to_revisit field_table uni_lower uni_upper hash_oracle profile_of o orig rf with
+      | None -> ("rv:err", "-")
+      | Some rev ->
+        let show tag r = Printf.sprintf "%s:ok;t=%d;h=%s;b=%s;k=%s" tag (int_of_n r.r_type) (hex (m_write r.r_fields)) (hex (raw_bytes r.r_block)) (show_bkind r.r_block.bk) in
+        let m = match merge field_table uni_lower rev orig true with
+          | None -> "|mg:err"
+          | Some mg -> "|" ^ show "mg" mg in
+        (show "rv" rev ^ m, "-")
+
 (* ---------- main ---------- *)
 let run_line (line : string) : string * string =
   let t = { rest = List.filter (fun s -> s <> "") (String.split_on_char ' ' line) } in
@@ -371,6 +402,7 @@ let run_line (line : string) : string * string =
   | "build" -> run_build t
   | "unm" -> run_unm t
   | "writer" -> run_writer t
+  | "rev" -> run_rev t
   | d -> failwith ("unknown domain " ^ d)
 
 let () =
